@@ -19,7 +19,7 @@ import (
 // A probe installed as the first global middleware snapshots the context at
 // entry of every request.
 
-var kindNames = []string{"store", "errors", "abort", "status-write", "replace-resp", "replace-req", "set-handlers", "dynamic", "dynamic2", "notfound", "notallowed", "panic", "redispatch", "nested", "copy", "mutate-params", "dynamic3", "delegate", "hijack", "mutate-novar", "novar", "keep-copy", "panic-status", "mutate-query", "query", "render-fail", "render-ok", "hijack2", "notallowed3", "flush", "mutate-static", "static", "json"}
+var kindNames = []string{"store", "errors", "abort", "status-write", "replace-resp", "replace-req", "set-handlers", "dynamic", "dynamic2", "notfound", "notallowed", "panic", "redispatch", "nested", "copy", "mutate-params", "dynamic3", "delegate", "hijack", "mutate-novar", "novar", "keep-copy", "panic-status", "mutate-query", "query", "render-fail", "render-ok", "hijack2", "notallowed3", "flush", "mutate-static", "static", "json", "mounted-201", "mounted-404", "build-url"}
 
 type kindReq struct {
 	method, path string
@@ -71,10 +71,16 @@ var kindReqs = map[string]kindReq{
 	"static":        {"GET", "/ms"},
 	// a handler that answers through the JSON helper (pkg/render)
 	"json": {"GET", "/json"},
+	// a second rux router mounted in a handler through the net/http adapter (it is handed this request's writer):
+	// one of its routes answers 201, an unknown path gets its 404
+	"mounted-201": {"GET", "/mnt/a"},
+	"mounted-404": {"GET", "/mnt/zz"},
+	// a handler that builds the URL of a named route without arguments, shows it, and then decorates the URL value it got
+	"build-url": {"GET", "/bu"},
 }
 
 // kindParams: the parameters a request for the path must find in its context at entry (the variables of its route)
-var kindParams = map[string]string{"/d/7": "id=7", "/d/8/x": "id=8,sub=x", "/d/55": "id=55", "/m/9": "id=9", "/keep/5": "id=5", "/view/bad": "name=bad", "/view/good": "name=good"}
+var kindParams = map[string]string{"/mnt/a": "x=a", "/mnt/zz": "x=zz", "/d/7": "id=7", "/d/8/x": "id=8,sub=x", "/d/55": "id=55", "/m/9": "id=9", "/keep/5": "id=5", "/view/bad": "name=bad", "/view/good": "name=good"}
 
 // kindRenderer is the router's view renderer: it writes a heading, then fails for the view named "bad"
 type kindRenderer struct{}
@@ -326,6 +332,15 @@ func newKindRouter(cfg kindCfg) *kindRouter {
 	} else {
 		r.Add("/ms", ms, "GET", "POST")
 	}
+	inner := rux.New()
+	inner.GET("/mnt/a", func(c *rux.Context) { c.Text(201, "inner-created") })
+	get("/mnt/{x}", func(c *rux.Context) { rux.WrapH(inner)(c) })
+	r.AddNamed("home", "/home/page", func(c *rux.Context) { c.WriteString("home") }, "GET")
+	get("/bu", func(c *rux.Context) {
+		u := c.Router().BuildURL("home")
+		c.WriteString("bu:" + u.String())
+		u.RawQuery, u.Fragment, u.Host = "page=2", "top", "decorated.example"
+	})
 	get("/json", func(c *rux.Context) { c.JSON(200, rux.M{"a": 1, "list": []int{1, 2}}) })
 	get("/copy", func(c *rux.Context) {
 		cp := c.Copy()
